@@ -65,8 +65,24 @@ func (H) Gen(prop string, rng *rand.Rand, tier string) *core.Plan {
 	// handlers of one partition are alive together only around a broken stream, a short window
 	p.Cfg["hot_pm"] = []int{0, 0, 30, 100}[rng.Intn(4)]
 	n := 4 + rng.Intn(14)
+	if rng.Intn(4) == 0 {
+		// the follower is stopped gracefully while the very first messages of the log are on their way
+		// (held back by an offline phase): its partition may be closed when the request is handled
+		p.Ops = append(p.Ops, core.Op{K: "offline", A: []int64{1, 5}[rng.Intn(2)]}, core.Op{K: "put", A: int64(1 + rng.Intn(3)), B: int64(8 + rng.Intn(120))},
+			core.Op{K: "restart_f", A: 0})
+		if rng.Intn(3) == 0 {
+			p.Ops = append(p.Ops[:len(p.Ops)-1], core.Op{K: "wait", A: 1}, core.Op{K: "restart_f", A: 0})
+		}
+	}
 	for i := 0; i < n; i++ {
 		switch r := rng.Intn(100); {
+		case r < 4:
+			// the follower's node flaps: offline and online again within a few scheduling steps, possibly right
+			// after the leader's replicator started (re)connecting
+			if rng.Intn(2) == 0 {
+				p.Ops = append(p.Ops, core.Op{K: "restart_l", A: 0})
+			}
+			p.Ops = append(p.Ops, core.Op{K: "flap", A: int64(1 + rng.Intn(3))}, core.Op{K: "put", A: 1, B: int64(8 + rng.Intn(120))})
 		case r < 40:
 			p.Ops = append(p.Ops, core.Op{K: "put", A: int64(1 + rng.Intn(6)), B: int64(8 + rng.Intn(120))})
 		case r < 55:
@@ -160,6 +176,7 @@ type cluster struct {
 	noFaults bool
 	streams  int
 	streamTasks map[int]bool // tasks that run a follower stream handler
+	flapping    bool         // the follower's node is between offline and online of a flap
 
 	// ledger
 	written  map[int64][]byte // leader sequence -> bytes as appended (of the leader's current log history)
@@ -599,9 +616,19 @@ func (H) Run(c *core.RunCtx) {
 	sim := c.Sim
 	cl := &cluster{c: c, sim: sim, nodes: map[int]*node{}, live: map[int]bool{leaderID: true, followerID: true}, watchers: map[int][]func(models.NodeStateType){},
 		appendedBy: map[int64]int{}, faultPM: c.Plan.C("fault_pm", 0), written: map[int64][]byte{}, lostFrom: 1 << 60, prevAck: -1, streamTasks: map[int]bool{}}
-	if hot := float64(c.Plan.C("hot_pm", 0)) / 1000; hot > 0 {
+	{
+		hot := float64(c.Plan.C("hot_pm", 0)) / 1000
+		main := sim.CurTask()
 		sim.OnYield = func(label string) {
-			if cl.noFaults || !cl.streamTasks[sim.CurTask()] {
+			if cl.flapping && sim.CurTask() != main && !cl.noFaults {
+				// while the node flaps every other task may lose the processor at any point (the window between the
+				// replicator's look at the live nodes and its decision to suspend is a few instructions)
+				if sim.Tape.Chance(0.3) {
+					sim.YieldNow()
+				}
+				return
+			}
+			if hot == 0 || cl.noFaults || !cl.streamTasks[sim.CurTask()] {
 				return
 			}
 			if (strings.HasPrefix(label, "replica.") || strings.HasPrefix(label, "queue.") || label == "lock") && sim.Tape.Chance(hot) {
@@ -706,6 +733,16 @@ func (H) Run(c *core.RunCtx) {
 			cl.live[followerID] = true
 			sim.Fault("follower-online")
 			cl.notify(followerID, models.NodeOnline)
+		case "flap":
+			sim.Fault("follower-flap")
+			cl.flapping = true
+			cl.live[followerID] = false
+			for i := int64(0); i < op.A; i++ {
+				sim.YieldNow()
+			}
+			cl.live[followerID] = true
+			cl.notify(followerID, models.NodeOnline)
+			cl.flapping = false
 		case "online_dup":
 			sim.Fault("duplicate-online-notification")
 			cl.notify(followerID, models.NodeOnline)
